@@ -1,7 +1,7 @@
 (* C08 -- reported progress always matches the batches that really finished. *)
 From XV Require Import Prelude Grid Perm Runner Batch Crop GenReap BridgeReap
      GridProofs PermProofs RunnerProofs BatchProofs AssocProofs CropProofs ReapProofs ProgressProofs.
-From XV Require Sched GenPublish BridgePublish.
+From XV Require Sched GenPublish BridgePublish GenBatch BridgeBatch.
 Open Scope Z_scope.
 
 (* after ANY history of grows (with any failures of the function or of the result write), result deletions, check_bad and re-sows of
@@ -94,6 +94,11 @@ Proof.
   exact (conj BridgePublish.bridge_publish (conj BridgePublish.bridge_grow_shape BridgePublish.bridge_query_ops)).
 Qed.
 
+(* what a Crop object reports always follows the settings file: loading overrides whatever the object was
+   constructed with or was asked for in a refused re-sow (pinned: _sync_info_from_disk, the progress counters) *)
+Theorem C08_reports_follow_the_disk : GenBatch.gen_reload_overrides_request = true.
+Proof. exact BridgeBatch.bridge_reload_overrides. Qed.
+
 (* tie to the code: the ready test, the missing range/predicate regenerated from cropping.py *)
 Theorem C08_code_tie :
   (forall nr ns, gen_is_ready nr ns = (0 <? nr) && (nr =? ns))
@@ -102,6 +107,7 @@ Proof. exact (conj bridge_is_ready bridge_missing). Qed.
 
 Print Assumptions C08_failed_write_not_recorded.
 Print Assumptions C08_publication_tie.
+Print Assumptions C08_reports_follow_the_disk.
 Print Assumptions C08_inv.
 Print Assumptions C08_finished_history.
 Print Assumptions C08_observations.
